@@ -19,6 +19,10 @@ def _collect_msg_ranges(root="/repo/pipefunc"):
             body_lists = [getattr(node, a) for a in ("body", "orelse", "finalbody") if isinstance(getattr(node, a, None), list)]
             for body in body_lists:
                 for i, st in enumerate(body):
+                    if isinstance(st, ast.Expr) and isinstance(st.value, ast.Call) and (
+                        (isinstance(st.value.func, ast.Name) and st.value.func.id == "print")
+                        or (isinstance(st.value.func, ast.Attribute) and st.value.func.attr == "warn")):
+                        ranges.append((st.lineno, st.end_lineno))
                     if isinstance(st, ast.Raise):
                         ranges.append((st.lineno, st.end_lineno))
                         # preceding `msg = ...` assignments feeding this raise
@@ -86,6 +90,32 @@ def _realizing(fn):
     return wrapper
 for _n in ("unravel_index", "ravel_multi_index"):
     setattr(_np, _n, _realizing(getattr(_np, _n)))
+if '--hashstub' in sys.argv:
+    _orig_hash = _PATCH_REGISTRATIONS[hash]
+    def _hash_stub(obj):
+        with NoTracing():
+            from crosshair.libimpl.builtinslib import SymbolicInt, SymbolicBool, AnySymbolicStr
+            leaf = isinstance(obj, (SymbolicInt, SymbolicBool, AnySymbolicStr))
+            is_tuple = type(obj) is tuple
+        if leaf:
+            return 0
+        if is_tuple:
+            for x in obj:
+                _hash_stub(x)
+            return 0
+        return _orig_hash(obj)
+    _PATCH_REGISTRATIONS[hash] = _hash_stub
+import operator as _operator
+_orig_range = _PATCH_REGISTRATIONS[range]
+def _range_fixed(*a):
+    with NoTracing():
+        conv = tuple(_operator.index(x) if (not isinstance(x, (int, CrossHairValue)) and hasattr(x, "__index__")) else x for x in a)
+    return _orig_range(*conv)
+_PATCH_REGISTRATIONS[range] = _range_fixed
+_orig_add_note = BaseException.add_note
+def _add_note_realizing(self, note):
+    return _orig_add_note(self, _deep_realize(note))
+_PATCH_REGISTRATIONS[BaseException.add_note] = _add_note_realizing
 modname, fname, timeout = sys.argv[1], sys.argv[2], float(sys.argv[3])
 mod = importlib.import_module(modname)
 fn = getattr(mod, fname)
